@@ -175,6 +175,23 @@ def run_verus_unit(name, expected_min_verified=1, timeout=900):
                 e["source"] = src_lines[e["line"] - 1].strip()[:160] if 0 < e["line"] <= len(src_lines) else ""
             res["status"] = "fail"
             res["failed"] = [f["function"] for f in failed]
+            # is the failure credible as a statement about the code?  If the edit displaced annotation blocks of a failing item (their
+            # neighbouring code tokens changed, were moved or deleted), the proof hints may simply no longer fit: the failure then says
+            # "the proof does not carry over", not "the contract is broken" (DESIGN 11.13).
+            by_name = {}
+            for it in report:
+                nm = it["item"].split(" ", 1)[1] if " " in it["item"] else it["item"]
+                by_name.setdefault(nm, []).append(it)
+            disp = []
+            for fn_ in res["failed"]:
+                its = by_name.get(fn_.split("::")[-1])
+                if its is None:
+                    its = [it for it in report if not it.get("trusted")]  # a lemma / spec of the template failed: any displaced item may be the reason
+                for it in its:
+                    if it.get("annotation_blocks_displaced", 0) > 0:
+                        disp.append("%s: %d of %d annotation blocks displaced" % (it["item"], it["annotation_blocks_displaced"], it.get("annotation_blocks", 0)))
+            res["hints_displaced"] = sorted(set(disp))
+            res["credible"] = not disp
     elif vr.get("success") and res["verified"] >= expected_min_verified:
         res["status"] = "ok"
     elif vr.get("success"):
@@ -194,6 +211,8 @@ def write_evidence(prop, level, coverage, assumptions, wall_s, violations=0, ext
           "repo_head": repo_head(), "generated_at": time.strftime("%Y-%m-%dT%H:%M:%SZ", time.gmtime())}
     if extra:
         ev.update(extra)
+    if UNDECIDED_LOG:
+        ev["undecided"] = list(UNDECIDED_LOG)
     evdir = os.environ.get("VERIF_EVIDENCE_DIR", os.path.join(VERIF, "evidence"))
     os.makedirs(evdir, exist_ok=True)
     path = os.path.join(evdir, prop + ".json")
@@ -225,5 +244,21 @@ def load_known_findings():
     return out
 
 
+UNDECIDED_LOG = []
+
+
 def say(*a):
+    if a and isinstance(a[0], str) and a[0].startswith("UNDECIDED"):
+        UNDECIDED_LOG.append(" ".join(str(x) for x in a)[:600])
     print(*a, flush=True)
+
+
+def settle(rc, decided):
+    """exit protocol (DESIGN 9 as amended in 11.13): 1 = a violation was found; 0 = no violation in what was explored and at least one
+    obligation of this property was decided in this run (parts that could not be decided on this tree - a unit whose annotations no longer
+    fit, a harness that timed out - are printed as UNDECIDED lines and listed under `undecided` in the evidence, they are neither counted
+    as held nor raised as an alarm); 2 = no violation and NOTHING could be decided (the check explored nothing)."""
+    if rc == EXIT_UNDECIDED and decided > 0:
+        say("NOTE %d part(s) undecided on this tree (listed above and in the evidence file), %d obligation(s) decided, none violated" % (len(UNDECIDED_LOG), decided))
+        return EXIT_OK
+    return rc
